@@ -71,7 +71,7 @@ theorem countP_sn_mem (l : List QMsg) (j : Nat) (h : 0 < l.countP (fun x => x.sn
   exact ⟨q, hq, by simpa using he⟩
 
 /-- the ledger before the oracle's success (`t`: the message with serial `k` is being tracked) -/
-structure Core (t : Bool) (k : Nat) (c : Ctx) : Prop where
+structure Core (n0 : Nat → Nat) (t : Bool) (k : Nat) (c : Ctx) : Prop where
   /-- nothing is in flight: nothing has been written -/
   infl : c.s.inflight = []
   /-- the delay queue holds the submissions in SUBMISSION ORDER (serials strictly increasing: each once) -/
@@ -81,21 +81,21 @@ structure Core (t : Bool) (k : Nat) (c : Ctx) : Prop where
   /-- a Confirmable with an lg_crcv entry is in the delay queue -/
   lgc : ∀ g ∈ c.s.lgCrcv, g.con = true → g ∈ c.s.delayq
   /-- NO message is ever reported twice -/
-  n1 : ∀ j, nk j c.out ≤ 1
+  n1 : ∀ j, n0 j + nk j c.out ≤ 1
   /-- what is queued has not been reported -/
-  nq : ∀ q ∈ c.s.delayq, nk q.sn c.out = 0
-  ng : ∀ g ∈ c.s.lgCrcv, nk g.sn c.out = 0
-  nf : ∀ j, c.s.next ≤ j → nk j c.out = 0
+  nq : ∀ q ∈ c.s.delayq, n0 q.sn + nk q.sn c.out = 0
+  ng : ∀ g ∈ c.s.lgCrcv, n0 g.sn + nk g.sn c.out = 0
+  nf : ∀ j, c.s.next ≤ j → n0 j + nk j c.out = 0
   /-- the tracked Confirmable: still queued on a session that has not failed and is not freed, or gone and reported ONCE -/
   trk : t = true → (∃ q ∈ c.s.delayq, q.sn = k ∧ q.con = true ∧ c.s.state ≠ .none ∧ c.s.freed = false) ∨
-                   ((∀ q ∈ c.s.delayq, q.sn ≠ k) ∧ nk k c.out = 1)
+                   ((∀ q ∈ c.s.delayq, q.sn ≠ k) ∧ n0 k + nk k c.out = 1)
 
 /-- a step that leaves the queues alone (lg_crcv entries may go, serials may be handed out, the state may change but not
 to NONE) and reports nothing -/
-theorem core_keep {t k} {c c' : Ctx} (h : Core t k c) (hdq : c'.s.delayq = c.s.delayq) (hin : c'.s.inflight = c.s.inflight)
+theorem core_keep {n0 t k} {c c' : Ctx} (h : Core n0 t k c) (hdq : c'.s.delayq = c.s.delayq) (hin : c'.s.inflight = c.s.inflight)
     (hlg : ∀ g ∈ c'.s.lgCrcv, g ∈ c.s.lgCrcv) (hnx : c.s.next ≤ c'.s.next)
     (hst : c'.s.state = .none → c.s.state = .none) (hfr : c'.s.freed = c.s.freed)
-    (hout : ∀ j, nk j c'.out = nk j c.out) : Core t k c' := by
+    (hout : ∀ j, nk j c'.out = nk j c.out) : Core n0 t k c' := by
   obtain ⟨a1, a2, a3, a4, a5, a6, a7, a8, a9, a10⟩ := h
   refine ⟨by rw [hin, a1], by rw [hdq]; exact a2, ?_, ?_, ?_, ?_, ?_, ?_, ?_, ?_⟩
   · intro q hq; rw [hdq] at hq; have := a3 q hq; omega
@@ -111,17 +111,17 @@ theorem core_keep {t k} {c c' : Ctx} (h : Core t k c) (hdq : c'.s.delayq = c.s.d
     · exact Or.inr ⟨by rw [hdq]; exact h1, by rw [hout]; exact h2⟩
 
 /-- `m` is a message that has just been given a serial -/
-structure Fresh (m : QMsg) (c : Ctx) : Prop where
+structure Fresh (n0 : Nat → Nat) (m : QMsg) (c : Ctx) : Prop where
   dq : ∀ q ∈ c.s.delayq, q.sn < m.sn
   lg : ∀ g ∈ c.s.lgCrcv, g.sn < m.sn
   nx : m.sn < c.s.next
-  nk0 : nk m.sn c.out = 0
+  nk0 : n0 m.sn + nk m.sn c.out = 0
 
 /-- coap_session_delay_pdu: a fresh message is appended to the delay queue (and may get an lg_crcv entry) -/
-theorem core_enq {t k} {c c' : Ctx} {m : QMsg} (h : Core t k c) (hf : Fresh m c) (hdq : c'.s.delayq = c.s.delayq ++ [m])
+theorem core_enq {n0 t k} {c c' : Ctx} {m : QMsg} (h : Core n0 t k c) (hf : Fresh n0 m c) (hdq : c'.s.delayq = c.s.delayq ++ [m])
     (hin : c'.s.inflight = c.s.inflight) (hlg : ∀ g ∈ c'.s.lgCrcv, g = m ∨ g ∈ c.s.lgCrcv) (hnx : c'.s.next = c.s.next)
     (hst : c'.s.state = c.s.state) (hfr : c'.s.freed = c.s.freed) (hout : ∀ j, nk j c'.out = nk j c.out) :
-    Core t k c' := by
+    Core n0 t k c' := by
   obtain ⟨a1, a2, a3, a4, a5, a6, a7, a8, a9, a10⟩ := h
   obtain ⟨f1, f2, f3, f4⟩ := hf
   refine ⟨by rw [hin, a1], ?_, ?_, ?_, ?_, ?_, ?_, ?_, ?_, ?_⟩
@@ -169,11 +169,11 @@ theorem core_enq {t k} {c c' : Ctx} {m : QMsg} (h : Core t k c) (hf : Fresh m c)
 /-- the delay queue is given up (coap_session_disconnected_lkd for any reason but ICMP, coap_session_mfree): every
 Confirmable in it is NACKed — `extra` is what else is reported: nothing, or, if the queue held no Confirmable, one lg_crcv
 entry's request —, both queues and the lg_crcv list are empty afterwards, the session is in state NONE or freed -/
-theorem core_flushq {t k} {c c' : Ctx} (h : Core t k c) (r : Nack) (hr : r ≠ .icmp) (extra : List Out)
+theorem core_flushq {n0 t k} {c c' : Ctx} (h : Core n0 t k c) (r : Nack) (hr : r ≠ .icmp) (extra : List Out)
     (hx : (∀ j, nk j extra = 0) ∨
           ((c.s.delayq.filter fun q : QMsg => q.con) = [] ∧ ∃ g ∈ c.s.lgCrcv, ∀ j, nk j extra = if g.sn = j then 1 else 0))
     (hdq : c'.s.delayq = []) (hin : c'.s.inflight = []) (hlg : c'.s.lgCrcv = []) (hnx : c'.s.next = c.s.next)
-    (hout : c'.out = c.out ++ ((c.s.delayq.filter fun q : QMsg => q.con).map (nackOf r) ++ extra)) : Core t k c' := by
+    (hout : c'.out = c.out ++ ((c.s.delayq.filter fun q : QMsg => q.con).map (nackOf r) ++ extra)) : Core n0 t k c' := by
   obtain ⟨a1, a2, a3, a4, a5, a6, a7, a8, a9, a10⟩ := h
   have hsub : ((c.s.delayq.filter fun q : QMsg => q.con).map (·.sn)).Pairwise (· < ·) :=
     List.Pairwise.sublist (List.Sublist.map _ List.filter_sublist) a2
@@ -181,7 +181,7 @@ theorem core_flushq {t k} {c c' : Ctx} (h : Core t k c) (r : Nack) (hr : r ≠ .
     intro j; rw [hout, nk_append, nk_append, nk_map_nackOf j r hr]
   have hle := fun j => countP_sn_le_one _ hsub j
   -- a serial reported by this step was queued (or had the lg_crcv entry) and had not been reported before
-  have hone : ∀ j, nk j c.out + ((c.s.delayq.filter fun q : QMsg => q.con).countP (fun q => q.sn == j) + nk j extra) ≤ 1 := by
+  have hone : ∀ j, n0 j + (nk j c.out + ((c.s.delayq.filter fun q : QMsg => q.con).countP (fun q => q.sn == j) + nk j extra)) ≤ 1 := by
     intro j
     rcases hx with hx | ⟨hf, g, hg, hx⟩
     · rw [hx j]
@@ -193,8 +193,8 @@ theorem core_flushq {t k} {c c' : Ctx} (h : Core t k c) (r : Nack) (hr : r ≠ .
       · have := a6 j; omega
     · rw [hx j, hf]
       by_cases hj : g.sn = j
-      · subst hj; have := a8 g hg; simp [this]
-      · have := a6 j; simp [hj, this]
+      · subst hj; have := a8 g hg; simp only [if_true, List.countP_nil]; omega
+      · have := a6 j; simp only [if_neg hj, List.countP_nil]; omega
   refine ⟨hin, by rw [hdq]; simp, by rw [hdq]; simp, by rw [hlg]; simp, by rw [hlg]; simp, ?_, by rw [hdq]; simp,
     by rw [hlg]; simp, ?_, ?_⟩
   · intro j; rw [hcnt]; exact hone j
@@ -242,32 +242,32 @@ theorem Same.trans {a b c : Ctx} (h1 : Same a b) (h2 : Same b c) : Same a c :=
   ⟨h1.dq.trans h2.dq, h1.infl.trans h2.infl, h1.lg.trans h2.lg, h1.nx.trans h2.nx, h1.st.trans h2.st, h1.fr.trans h2.fr,
    fun j => (h1.out j).trans (h2.out j)⟩
 
-theorem core_same {t k} {c c' : Ctx} (hs : Same c' c) (h : Core t k c) : Core t k c' :=
+theorem core_same {n0 t k} {c c' : Ctx} (hs : Same c' c) (h : Core n0 t k c) : Core n0 t k c' :=
   core_keep h hs.dq hs.infl (fun g hg => by rw [← hs.lg]; exact hg) (by rw [hs.nx]; exact Nat.le_refl _)
     (fun hn => by rw [← hs.st]; exact hn) hs.fr hs.out
 
-structure Both (m0 : Mon) (b t : Bool) (k : Nat) (c : Ctx) : Prop where
+structure Both (m0 : Mon) (n0 : Nat → Nat) (b t : Bool) (k : Nat) (c : Ctx) : Prop where
   inv : Inv m0 b c
-  led : (m0.run c.out).seen = true ∨ Core t k c
+  led : (m0.run c.out).seen = true ∨ Core n0 t k c
 
 section
-variable {m0 : Mon} {b t : Bool} {k : Nat} {c : Ctx}
+variable {m0 : Mon} {n0 : Nat → Nat} {b t : Bool} {k : Nat} {c : Ctx}
 
-theorem both_true {c : Ctx} (h : Inv m0 true c) : Both m0 b t k c := ⟨h.relax, Or.inl (h.known rfl)⟩
+theorem both_true {c : Ctx} (h : Inv m0 true c) : Both m0 n0 b t k c := ⟨h.relax, Or.inl (h.known rfl)⟩
 
 /-- a step with a gate lemma for every `b` and a ledger lemma -/
-theorem both_mk {c c' : Ctx} (h : Both m0 b t k c) (hi : ∀ b', Inv m0 b' c → Inv m0 b' c') (hc : Core t k c → Core t k c') :
-    Both m0 b t k c' := by
+theorem both_mk {c c' : Ctx} (h : Both m0 n0 b t k c) (hi : ∀ b', Inv m0 b' c → Inv m0 b' c') (hc : Core n0 t k c → Core n0 t k c') :
+    Both m0 n0 b t k c' := by
   rcases h.led with hs | hcore
   · exact both_true (hi true (h.inv.strengthen hs))
   · exact ⟨hi b h.inv, Or.inr (hc hcore)⟩
 
-theorem both_same {c c' : Ctx} (h : Both m0 b t k c) (hi : ∀ b', Inv m0 b' c → Inv m0 b' c') (hs : Same c' c) :
-    Both m0 b t k c' :=
+theorem both_same {c c' : Ctx} (h : Both m0 n0 b t k c) (hi : ∀ b', Inv m0 b' c → Inv m0 b' c') (hs : Same c' c) :
+    Both m0 n0 b t k c' :=
   both_mk h hi (core_same hs)
 
-theorem both_ite {p : Prop} [Decidable p] {x y : Ctx} (hx : p → Both m0 b t k x) (hy : ¬p → Both m0 b t k y) :
-    Both m0 b t k (if p then x else y) := by
+theorem both_ite {p : Prop} [Decidable p] {x y : Ctx} (hx : p → Both m0 n0 b t k x) (hy : ¬p → Both m0 n0 b t k y) :
+    Both m0 n0 b t k (if p then x else y) := by
   split
   · exact hx ‹_›
   · exact hy ‹_›
@@ -288,17 +288,17 @@ theorem same_outs (l : List Out) (hq : ∀ o ∈ l, o.quiet) (c : Ctx) : Same { 
     show nk j (c.out ++ l) = nk j c.out
     rw [nk_append, nk_quiet j l (fun o ho => hq o ho j)]; rfl⟩
 
-theorem both_setRet (r : Int) (h : Both m0 b t k c) : Both m0 b t k (c.setRet r) :=
+theorem both_setRet (r : Int) (h : Both m0 n0 b t k c) : Both m0 n0 b t k (c.setRet r) :=
   both_same h (fun _ => inv_setRet r) (same_setRet r c)
 
-theorem both_setFlag (f : Bool) (h : Both m0 b t k c) : Both m0 b t k (c.setFlag f) :=
+theorem both_setFlag (f : Bool) (h : Both m0 n0 b t k c) : Both m0 n0 b t k (c.setFlag f) :=
   both_same h (fun _ => inv_setFlag f) (same_setFlag f c)
 
-theorem both_emit (o : Out) (ho : o.inert = true) (hq : o.quiet) (h : Both m0 b t k c) : Both m0 b t k (c.emit o) :=
+theorem both_emit (o : Out) (ho : o.inert = true) (hq : o.quiet) (h : Both m0 n0 b t k c) : Both m0 n0 b t k (c.emit o) :=
   both_same h (fun _ => inv_emit_inert o ho) (same_emit o hq c)
 
-theorem both_ite_emit (p : Prop) [Decidable p] (o : Out) (ho : o.inert = true) (hq : o.quiet) (h : Both m0 b t k c) :
-    Both m0 b t k (if p then c.emit o else c) :=
+theorem both_ite_emit (p : Prop) [Decidable p] (o : Out) (ho : o.inert = true) (hq : o.quiet) (h : Both m0 n0 b t k c) :
+    Both m0 n0 b t k (if p then c.emit o else c) :=
   both_ite (fun _ => both_emit o ho hq h) fun _ => h
 
 /-- a session update that keeps the queues, the lg_crcv list (entries may go), the serial counter (it may grow) and does
@@ -308,7 +308,7 @@ theorem both_upd (f : Sess → Sess) (he : (f c.s).est = true → c.s.est = true
     (hdq : (f c.s).delayq = c.s.delayq) (hin : (f c.s).inflight = c.s.inflight)
     (hlg : ∀ g ∈ (f c.s).lgCrcv, g ∈ c.s.lgCrcv) (hnx : c.s.next ≤ (f c.s).next)
     (hno : (f c.s).state = .none → c.s.state = .none) (hfr : (f c.s).freed = c.s.freed)
-    (h : Both m0 b t k c) : Both m0 b t k (c.upd f) :=
+    (h : Both m0 n0 b t k c) : Both m0 n0 b t k (c.upd f) :=
   both_mk h (fun _ => inv_upd f he hst hp) fun hc => core_keep hc hdq hin hlg hnx hno hfr fun _ => rfl
 
 end
@@ -322,7 +322,7 @@ theorem quiet_of_not_nack {o : Out} (h : ∀ r t s, o ≠ .nack r t s) : o.quiet
   cases o <;> first | rfl | exact absurd rfl (h _ _ _)
 
 section
-variable {m0 : Mon} {b t : Bool} {k : Nat} {c : Ctx}
+variable {m0 : Mon} {n0 : Nat → Nat} {b t : Bool} {k : Nat} {c : Ctx}
 
 theorem same_popHs (c : Ctx) : Same c.popHs c := by
   unfold Ctx.popHs; split
@@ -341,9 +341,9 @@ theorem same_popCk (c : Ctx) : Same c.popCk c := by
   · exact ⟨rfl, rfl, rfl, rfl, rfl, rfl, fun _ => rfl⟩
   · exact ⟨rfl, rfl, rfl, rfl, rfl, rfl, (same_emit .orcMissing (fun _ => rfl) c).out⟩
 
-theorem both_popRec (h : Both m0 b t k c) : Both m0 b t k c.popRec := both_same h (fun _ => popRec_inv) (same_popRec c)
-theorem both_popEnv (h : Both m0 b t k c) : Both m0 b t k c.popEnv := both_same h (fun _ => popEnv_inv) (same_popEnv c)
-theorem both_popCk (h : Both m0 b t k c) : Both m0 b t k c.popCk := both_same h (fun _ => popCk_inv) (same_popCk c)
+theorem both_popRec (h : Both m0 n0 b t k c) : Both m0 n0 b t k c.popRec := both_same h (fun _ => popRec_inv) (same_popRec c)
+theorem both_popEnv (h : Both m0 n0 b t k c) : Both m0 n0 b t k c.popEnv := both_same h (fun _ => popEnv_inv) (same_popEnv c)
+theorem both_popCk (h : Both m0 n0 b t k c) : Both m0 n0 b t k c.popCk := both_same h (fun _ => popCk_inv) (same_popCk c)
 
 /-- a session update of fields the ledger does not look at -/
 theorem same_upd (f : Sess → Sess) (c : Ctx) (hdq : (f c.s).delayq = c.s.delayq) (hin : (f c.s).inflight = c.s.inflight)
@@ -369,7 +369,7 @@ theorem same_doHandshake (c : Ctx) : Same c.doHandshake c := by
     | exact (same_setRet _ _).trans ((u _ _ (by simp)).trans ((u _ _ (by simp)).trans h0))
     | exact (same_setRet _ _).trans ((u _ _ (by simp)).trans ((u _ _ (by simp)).trans ((e _ _ (by simp)).trans h0)))
 
-theorem both_doHandshake (h : Both m0 b t k c) : Both m0 b t k c.doHandshake :=
+theorem both_doHandshake (h : Both m0 n0 b t k c) : Both m0 n0 b t k c.doHandshake :=
   both_same h (fun _ => doHandshake_inv) (same_doHandshake c)
 
 theorem same_freeEnv (sb : Bool) (c : Ctx) : Same (c.freeEnv sb) c := by
@@ -411,7 +411,7 @@ end
 /-! ## giving the delay queue up: coap_session_disconnected_lkd, coap_session_mfree -/
 
 section
-variable {m0 : Mon} {b t : Bool} {k : Nat} {c : Ctx}
+variable {m0 : Mon} {n0 : Nat → Nat} {b t : Bool} {k : Nat} {c : Ctx}
 
 /-- what follows the delay-queue NACKs in `discOuts` when nothing is in flight -/
 def discRestL (c : Ctx) (r : Nack) : List Out :=
@@ -438,7 +438,7 @@ theorem discOuts_icmp_quiet (c : Ctx) : ∀ o ∈ c.discOuts .icmp, o.quiet := b
     · simp at ho; subst ho; rfl
     · simp at ho
 
-theorem core_disconnected (r : Nack) (h : Core t k c) : Core t k (c.disconnected r) := by
+theorem core_disconnected (r : Nack) (h : Core n0 t k c) : Core n0 t k (c.disconnected r) := by
   unfold Ctx.disconnected
   simp only
   by_cases hr : r = .icmp
@@ -460,13 +460,13 @@ theorem core_disconnected (r : Nack) (h : Core t k c) : Core t k (c.disconnected
       · left; intro j; simp [hf]
     · simp [Ctx.upd, h.infl, discOuts_eqL c r hr h.infl]
 
-theorem both_disconnected (r : Nack) (h : Both m0 b t k c) : Both m0 b t k (c.disconnected r) :=
+theorem both_disconnected (r : Nack) (h : Both m0 n0 b t k c) : Both m0 n0 b t k (c.disconnected r) :=
   both_mk h (fun _ => disconnected_inv r) (core_disconnected r)
 
-theorem core_sessionFree (h : Core t k c) : Core t k c.sessionFree := by
+theorem core_sessionFree (h : Core n0 t k c) : Core n0 t k c.sessionFree := by
   unfold Ctx.sessionFree
   simp only
-  have h1 : Core t k (c.upd fun s => { s with lgCrcv := [] }) :=
+  have h1 : Core n0 t k (c.upd fun s => { s with lgCrcv := [] }) :=
     core_keep h rfl rfl (fun g hg => by simp [Ctx.upd] at hg) (Nat.le_refl _) id rfl fun _ => rfl
   have h2 := core_same (same_sessionClose _) h1
   have hl2 : (c.upd fun s => { s with lgCrcv := [] }).sessionClose.s.lgCrcv = [] := (same_sessionClose _).lg
@@ -474,10 +474,10 @@ theorem core_sessionFree (h : Core t k c) : Core t k c.sessionFree := by
   have hr : (if c2.s.proto = .dtls then Nack.tls else Nack.undeliv) ≠ .icmp := by split <;> decide
   exact core_flushq h2 _ hr [] (Or.inl fun _ => rfl) rfl h2.infl hl2 rfl (by simp [Ctx.upd])
 
-theorem both_sessionFree (h : Both m0 b t k c) : Both m0 b t k c.sessionFree :=
+theorem both_sessionFree (h : Both m0 n0 b t k c) : Both m0 n0 b t k c.sessionFree :=
   both_mk h (fun _ => sessionFree_inv) core_sessionFree
 
-theorem both_maybeFree (h : Both m0 b t k c) : Both m0 b t k c.maybeFree := by
+theorem both_maybeFree (h : Both m0 n0 b t k c) : Both m0 n0 b t k c.maybeFree := by
   unfold Ctx.maybeFree
   split
   · exact both_sessionFree h
@@ -510,15 +510,15 @@ theorem sendInternal_pre (m : QMsg) (ack : Bool) (c : Ctx) (hs : c.s.state ≠ .
   · left; simp [Ctx.setRet, DELAYED]
   · right; simp [Ctx.setRet]
 
-theorem core_refused (h : Core t k c) : Core t k ((c.setRet (-1)).emit .sendfail) :=
+theorem core_refused (h : Core n0 t k c) : Core n0 t k ((c.setRet (-1)).emit .sendfail) :=
   core_same ((same_emit _ (fun _ => rfl) _).trans (same_setRet _ _)) h
 
-theorem core_delayed {m : QMsg} (h : Core t k c) (hf : Fresh m c) :
-    Core t k ((c.upd fun s => { s with delayq := s.delayq ++ [m] }).setRet DELAYED) :=
+theorem core_delayed {m : QMsg} (h : Core n0 t k c) (hf : Fresh n0 m c) :
+    Core n0 t k ((c.upd fun s => { s with delayq := s.delayq ++ [m] }).setRet DELAYED) :=
   core_enq h hf rfl rfl (fun g hg => Or.inr hg) rfl rfl rfl fun _ => rfl
 
-theorem both_sendInternal (m : QMsg) (ack : Bool) (h : Both m0 b t k c) (hf : Core t k c → Fresh m c) :
-    Both m0 b t k (c.sendInternal m ack) := by
+theorem both_sendInternal (m : QMsg) (ack : Bool) (h : Both m0 n0 b t k c) (hf : Core n0 t k c → Fresh n0 m c) :
+    Both m0 n0 b t k (c.sendInternal m ack) := by
   refine ⟨sendInternal_inv m ack h.inv, ?_⟩
   rcases h.led with hs | hc
   · exact Or.inl ((sendInternal_inv m ack (h.inv.strengthen hs)).known rfl)
@@ -541,23 +541,23 @@ theorem eraseTok_subset (tok : String) (l : List QMsg) : ∀ g ∈ eraseTok tok 
       · exact Or.inl rfl
       · exact Or.inr (ih g hg)
 
-theorem both_sendLkdTail (m : QMsg) (obs : Bool) (h : Both m0 b t k c) (hf : Core t k c → Fresh m c) :
-    Both m0 b t k (c.sendLkdTail m obs) := by
+theorem both_sendLkdTail (m : QMsg) (obs : Bool) (h : Both m0 n0 b t k c) (hf : Core n0 t k c → Fresh n0 m c) :
+    Both m0 n0 b t k (c.sendLkdTail m obs) := by
   refine ⟨sendLkdTail_inv m obs h.inv, ?_⟩
   rcases h.led with hs | hc
   · exact Or.inl ((sendLkdTail_inv m obs (h.inv.strengthen hs)).known rfl)
   · by_cases hst : c.s.state = .established
     · exact Or.inl ((sendLkdTail_inv m obs (h.inv.strengthen (h.inv.st hst))).known rfl)
-    · have hplain := (both_sendInternal (m0 := m0) (b := b) m false ⟨h.inv, Or.inr hc⟩ hf).led
+    · have hplain := (both_sendInternal (m0 := m0) (n0 := n0) (b := b) m false ⟨h.inv, Or.inr hc⟩ hf).led
       unfold Ctx.sendLkdTail
       split
       · exact hplain
       · split
         · simp only
-          have hc1 : Core t k (c.upd fun s => { s with lgCrcv := eraseTok m.tok s.lgCrcv }) :=
+          have hc1 : Core n0 t k (c.upd fun s => { s with lgCrcv := eraseTok m.tok s.lgCrcv }) :=
             core_keep hc rfl rfl (eraseTok_subset _ _) (Nat.le_refl _) id rfl fun _ => rfl
           have hf0 := hf hc
-          have hf1 : Fresh m (c.upd fun s => { s with lgCrcv := eraseTok m.tok s.lgCrcv }) :=
+          have hf1 : Fresh n0 m (c.upd fun s => { s with lgCrcv := eraseTok m.tok s.lgCrcv }) :=
             ⟨hf0.dq, fun g hg => hf0.lg g (eraseTok_subset _ _ g hg), hf0.nx, hf0.nk0⟩
           have hst1 : (c.upd fun s => { s with lgCrcv := eraseTok m.tok s.lgCrcv }).s.state ≠ .established := hst
           generalize (c.upd fun s => { s with lgCrcv := eraseTok m.tok s.lgCrcv }) = c1 at hc1 hf1 hst1
@@ -578,58 +578,58 @@ macro "bupdf! " f:term:max h:term:max : term =>
 /-! ## the events -/
 
 section
-variable {m0 : Mon} {b t : Bool} {k : Nat} {c : Ctx}
+variable {m0 : Mon} {n0 : Nat → Nat} {b t : Bool} {k : Nat} {c : Ctx}
 
 /-- the message made from the next serial is fresh -/
-theorem fresh_next (m : QMsg) (hm : m.sn = c.s.next) (h : Core t k c) :
-    Fresh m (c.upd fun s => { s with next := s.next + 1 }) :=
+theorem fresh_next (m : QMsg) (hm : m.sn = c.s.next) (h : Core n0 t k c) :
+    Fresh n0 m (c.upd fun s => { s with next := s.next + 1 }) :=
   ⟨fun q hq => by rw [hm]; exact h.lt q hq, fun g hg => by rw [hm]; exact h.lgl g hg, by simp [Ctx.upd, hm],
    by rw [hm]; exact h.nf _ (Nat.le_refl _)⟩
 
-theorem both_next (h : Both m0 b t k c) : Both m0 b t k (c.upd fun s => { s with next := s.next + 1 }) :=
+theorem both_next (h : Both m0 n0 b t k c) : Both m0 n0 b t k (c.upd fun s => { s with next := s.next + 1 }) :=
   both_upd _ (by simp) (by simp) (by simp) rfl rfl (fun _ hg => hg) (Nat.le_succ _) (by simp) rfl h
 
-theorem both_submitInternal (m : QMsg) (hm : m.sn = c.s.next) (ack : Bool) (h : Both m0 b t k c) :
-    Both m0 b t k ((c.upd fun s => { s with next := s.next + 1 }).sendInternal m ack) := by
+theorem both_submitInternal (m : QMsg) (hm : m.sn = c.s.next) (ack : Bool) (h : Both m0 n0 b t k c) :
+    Both m0 n0 b t k ((c.upd fun s => { s with next := s.next + 1 }).sendInternal m ack) := by
   rcases h.led with hs | hc
   · exact both_true (sendInternal_inv m ack (inv_upd _ (by simp) (by simp) (by simp) (h.inv.strengthen hs)))
   · exact both_sendInternal m ack (both_next h) fun _ => fresh_next m hm hc
 
-theorem both_submitLkd (m : QMsg) (hm : m.sn = c.s.next) (obs : Bool) (h : Both m0 b t k c) :
-    Both m0 b t k ((c.upd fun s => { s with next := s.next + 1 }).sendLkdTail m obs) := by
+theorem both_submitLkd (m : QMsg) (hm : m.sn = c.s.next) (obs : Bool) (h : Both m0 n0 b t k c) :
+    Both m0 n0 b t k ((c.upd fun s => { s with next := s.next + 1 }).sendLkdTail m obs) := by
   rcases h.led with hs | hc
   · exact both_true (sendLkdTail_inv m obs (inv_upd _ (by simp) (by simp) (by simp) (h.inv.strengthen hs)))
   · exact both_sendLkdTail m obs (both_next h) fun _ => fresh_next m hm hc
 
-theorem both_appSend (con : Bool) (code mid : Nat) (tok : String) (h : Both m0 b t k c) :
-    Both m0 b t k (c.appSend con code mid tok) := by
+theorem both_appSend (con : Bool) (code mid : Nat) (tok : String) (h : Both m0 n0 b t k c) :
+    Both m0 n0 b t k (c.appSend con code mid tok) := by
   unfold Ctx.appSend
   exact both_submitInternal _ rfl false h
 
-theorem both_appSendL (con obs : Bool) (code mid : Nat) (tok : String) (h : Both m0 b t k c) :
-    Both m0 b t k (c.appSendL con obs code mid tok) := by
+theorem both_appSendL (con obs : Bool) (code mid : Nat) (tok : String) (h : Both m0 n0 b t k c) :
+    Both m0 n0 b t k (c.appSendL con obs code mid tok) := by
   unfold Ctx.appSendL
   exact both_submitLkd _ rfl obs h
 
-theorem both_lgExpire (keep : List String) (h : Both m0 b t k c) : Both m0 b t k (c.lgExpire keep) := by
+theorem both_lgExpire (keep : List String) (h : Both m0 n0 b t k c) : Both m0 n0 b t k (c.lgExpire keep) := by
   unfold Ctx.lgExpire
   exact both_upd _ (by simp) (by simp) (by simp) rfl rfl (fun g hg => (List.mem_filter.mp hg).1) (Nat.le_refl _) (by simp) rfl h
 
-theorem both_appSendStrm (w : Bool) (code mid : Nat) (tok : String) (h : Both m0 b t k c) :
-    Both m0 b t k (c.appSendStrm w code mid tok) := by
+theorem both_appSendStrm (w : Bool) (code mid : Nat) (tok : String) (h : Both m0 n0 b t k c) :
+    Both m0 n0 b t k (c.appSendStrm w code mid tok) := by
   unfold Ctx.appSendStrm
   refine both_ite (fun _ => both_emit _ rfl (fun _ => rfl) h) fun _ =>
     both_ite (fun _ => both_emit _ rfl (fun _ => rfl) h) fun _ => ?_
   simp only
   have h0 := bupdf! (fun s => { s with doingFirst := false }) h
-  have h1 : Both m0 b t k (if c.s.doingFirst = true then
+  have h1 : Both m0 n0 b t k (if c.s.doingFirst = true then
       (if (c.upd fun s => { s with doingFirst := false }).s.state = .csm
        then (c.upd fun s => { s with doingFirst := false }).emit (.unmodelled "csm-timeout")
        else c.upd fun s => { s with doingFirst := false }) else c) :=
     both_ite (fun _ => both_ite (fun _ => both_emit _ rfl (fun _ => rfl) h0) fun _ => h0) fun _ => h
   exact both_submitLkd _ rfl false h1
 
-theorem both_tlsTail (h : Both m0 b t k c) : Both m0 b t k c.tlsTail := by
+theorem both_tlsTail (h : Both m0 n0 b t k c) : Both m0 n0 b t k c.tlsTail := by
   unfold Ctx.tlsTail
   split
   · simp only
@@ -638,7 +638,7 @@ theorem both_tlsTail (h : Both m0 b t k c) : Both m0 b t k c.tlsTail := by
     exact both_ite (fun _ => both_setRet _ (both_disconnected _ h1)) fun _ => h1
   · exact h
 
-theorem both_receiveTail (h : Both m0 b t k c) : Both m0 b t k c.receiveTail := by
+theorem both_receiveTail (h : Both m0 n0 b t k c) : Both m0 n0 b t k c.receiveTail := by
   unfold Ctx.receiveTail
   split
   · simp only
@@ -647,13 +647,13 @@ theorem both_receiveTail (h : Both m0 b t k c) : Both m0 b t k c.receiveTail := 
     exact both_ite (fun _ => both_disconnected _ h1) fun _ => h1
   · exact h
 
-theorem both_hsThenConnect (h : Both m0 b t k c) : Both m0 b t k c.hsThenConnect := by
+theorem both_hsThenConnect (h : Both m0 n0 b t k c) : Both m0 n0 b t k c.hsThenConnect := by
   unfold Ctx.hsThenConnect
   simp only
   refine both_ite (fun hr => ?_) fun _ => both_setFlag _ (both_doHandshake h)
   exact both_true (inv_setFlag _ (sessionConnected_inv (doHandshake_ret1 h.inv hr)))
 
-theorem both_recvHs (h : Both m0 b t k c) : Both m0 b t k c.recvHs := by
+theorem both_recvHs (h : Both m0 n0 b t k c) : Both m0 n0 b t k c.recvHs := by
   unfold Ctx.recvHs
   simp only
   have h1 := both_hsThenConnect h
@@ -663,14 +663,14 @@ theorem both_recvHs (h : Both m0 b t k c) : Both m0 b t k c.recvHs := by
   · exact both_ite (fun _ => both_hsThenConnect h1) fun _ => h1
   · exact h1
 
-theorem both_dtlsReceive (h : Both m0 b t k c) : Both m0 b t k c.dtlsReceive := by
+theorem both_dtlsReceive (h : Both m0 n0 b t k c) : Both m0 n0 b t k c.dtlsReceive := by
   unfold Ctx.dtlsReceive
   simp only
   have h1 := bupdf! (fun s => { s with dtlsEvent := none }) h
   refine both_ite (fun he => ?_) fun _ => both_recvHs h1
   exact both_true (recvEst_inv (h1.inv.strengthen (h1.inv.est he)))
 
-theorem both_tlsTimeout (h : Both m0 b t k c) : Both m0 b t k c.tlsTimeout := by
+theorem both_tlsTimeout (h : Both m0 n0 b t k c) : Both m0 n0 b t k c.tlsTimeout := by
   unfold Ctx.tlsTimeout
   refine both_ite (fun _ => h) fun _ => ?_
   simp only
@@ -678,20 +678,20 @@ theorem both_tlsTimeout (h : Both m0 b t k c) : Both m0 b t k c.tlsTimeout := by
   refine both_ite (fun _ => both_disconnected _ h1) fun _ => ?_
   exact both_ite (fun _ => both_disconnected _ (both_doHandshake h1)) fun _ => both_doHandshake h1
 
-theorem both_retransmit (mid : Nat) (h : Both m0 b t k c) : Both m0 b t k (c.retransmit mid) := by
+theorem both_retransmit (mid : Nat) (h : Both m0 n0 b t k c) : Both m0 n0 b t k (c.retransmit mid) := by
   rcases h.led with hs | hc
   · exact both_true (retransmit_inv mid (h.inv.strengthen hs))
   · unfold Ctx.retransmit
     simp [hc.infl]
     exact h
 
-theorem both_freeEnv (sb : Bool) (h : Both m0 b t k c) : Both m0 b t k (c.freeEnv sb) :=
+theorem both_freeEnv (sb : Bool) (h : Both m0 n0 b t k c) : Both m0 n0 b t k (c.freeEnv sb) :=
   both_same h (fun _ => freeEnv_inv sb) (same_freeEnv sb c)
 
-theorem both_dtlsHello (h : Both m0 b t k c) : Both m0 b t k c.dtlsHello := by
+theorem both_dtlsHello (h : Both m0 n0 b t k c) : Both m0 n0 b t k c.dtlsHello := by
   unfold Ctx.dtlsHello
   simp only
-  have h1 : Both m0 b t k (if (!c.s.tls) = true then
+  have h1 : Both m0 n0 b t k (if (!c.s.tls) = true then
       (if c.popEnv.flag = true then c.popEnv.upd fun s => { s with tls := true } else c.popEnv) else c) :=
     both_ite (fun _ => both_ite (fun _ => bupd! (both_popEnv h)) fun _ => both_popEnv h) fun _ => h
   generalize (if (!c.s.tls) = true then
@@ -703,7 +703,7 @@ theorem both_dtlsHello (h : Both m0 b t k c) : Both m0 b t k c.dtlsHello := by
   refine both_ite (fun _ => ?_) fun _ => both_setRet _ h3
   exact both_setRet _ (bupd! (both_freeEnv _ h3))
 
-theorem both_handleDgramForProto (h : Both m0 b t k c) : Both m0 b t k c.handleDgramForProto := by
+theorem both_handleDgramForProto (h : Both m0 n0 b t k c) : Both m0 n0 b t k c.handleDgramForProto := by
   unfold Ctx.handleDgramForProto
   split
   · exact both_emit _ rfl (fun _ => rfl) h
@@ -715,7 +715,7 @@ theorem both_handleDgramForProto (h : Both m0 b t k c) : Both m0 b t k c.handleD
     have h2 := bupdf! (fun s => { s with typ := .server, state := .handshake }) h1
     exact both_ite (fun _ => both_disconnected _ h2) fun _ => h2
 
-theorem both_tlsEstablish (h : Both m0 b t k c) : Both m0 b t k c.tlsEstablish := by
+theorem both_tlsEstablish (h : Both m0 n0 b t k c) : Both m0 n0 b t k c.tlsEstablish := by
   unfold Ctx.tlsEstablish
   simp only
   have h1 := both_popEnv (bupdf! (fun s => { s with state := .handshake }) h)
@@ -724,19 +724,19 @@ theorem both_tlsEstablish (h : Both m0 b t k c) : Both m0 b t k c.tlsEstablish :
   refine both_ite (fun hr => ?_) fun _ => both_doHandshake h2
   exact both_true (sendCsm_inv (inv_emit_inert _ rfl (doHandshake_ret1 h2.inv hr)))
 
-theorem both_tlsReadHs (h : Both m0 b t k c) : Both m0 b t k c.tlsReadHs := by
+theorem both_tlsReadHs (h : Both m0 n0 b t k c) : Both m0 n0 b t k c.tlsReadHs := by
   unfold Ctx.tlsReadHs
   refine both_ite (fun _ => ?_) fun _ => both_setRet _ h
   simp only
   refine both_ite (fun hr => ?_) fun _ => both_doHandshake h
   exact both_true (inv_setRet _ (sendCsm_inv (inv_emit_inert _ rfl (doHandshake_ret1 h.inv hr))))
 
-theorem both_readEnd (h : Both m0 b t k c) : Both m0 b t k c.readEnd := by
+theorem both_readEnd (h : Both m0 n0 b t k c) : Both m0 n0 b t k c.readEnd := by
   unfold Ctx.readEnd
   simp only
   exact both_ite (fun _ => both_disconnected _ (both_tlsTail h)) fun _ => both_tlsTail h
 
-theorem both_strmRead (h : Both m0 b t k c) : Both m0 b t k c.strmRead := by
+theorem both_strmRead (h : Both m0 n0 b t k c) : Both m0 n0 b t k c.strmRead := by
   unfold Ctx.strmRead
   refine both_ite (fun _ => both_disconnected _ h) fun _ => ?_
   simp only
@@ -757,18 +757,18 @@ theorem both_strmRead (h : Both m0 b t k c) : Both m0 b t k c.strmRead := by
   · exact readEnd_inv (inv_setRet _ (inv_upd_true _ (by simp) h2))
   · exact readEnd_inv (inv_setRet _ h2)
 
-theorem both_tcpConnect (ok : Bool) (h : Both m0 b t k c) : Both m0 b t k (c.tcpConnect ok) := by
+theorem both_tcpConnect (ok : Bool) (h : Both m0 n0 b t k c) : Both m0 n0 b t k (c.tcpConnect ok) := by
   unfold Ctx.tcpConnect
   exact both_ite (fun _ => both_tlsEstablish (both_emit _ rfl (fun _ => rfl) h)) fun _ =>
     both_disconnected _ (both_emit _ rfl (fun _ => rfl) h)
 
-theorem both_strmWrite (h : Both m0 b t k c) : Both m0 b t k c.strmWrite := by
+theorem both_strmWrite (h : Both m0 n0 b t k c) : Both m0 n0 b t k c.strmWrite := by
   unfold Ctx.strmWrite
   exact both_ite (fun _ => h) fun _ => both_emit _ rfl (fun _ => rfl) h
 
 /-- one whole event keeps the gate invariant and the ledger -/
-theorem stepCtx_both (s : Sess) (e : Ev) (orc : List Orc) (h : Both m0 false t k { s := s, orc := orc }) :
-    Both m0 false t k (s.stepCtx e orc) := by
+theorem stepCtx_both (s : Sess) (e : Ev) (orc : List Orc) (h : Both m0 n0 false t k { s := s, orc := orc }) :
+    Both m0 n0 false t k (s.stepCtx e orc) := by
   unfold Sess.stepCtx
   simp only
   refine both_ite (fun _ => h) fun _ => ?_
@@ -788,4 +788,21 @@ theorem stepCtx_both (s : Sess) (e : Ev) (orc : List Orc) (h : Both m0 false t k
   · exact both_lgExpire _ h
 
 end
+
+/-! ## from one event to the next -/
+
+/-- the ledger at the start of the next event: what this event reported joins the earlier counts -/
+theorem core_rebase {n0 t k} {c : Ctx} (orc : List Orc) (h : Core n0 t k c) :
+    Core (fun j => n0 j + nk j c.out) t k { s := c.s, orc := orc } := by
+  obtain ⟨a1, a2, a3, a4, a5, a6, a7, a8, a9, a10⟩ := h
+  exact ⟨a1, a2, a3, a4, a5, by simpa using a6, by simpa using a7, by simpa using a8, by simpa using a9, by simpa using a10⟩
+
+/-- start tracking a Confirmable that is in the delay queue of a session that has not failed -/
+theorem core_track {n0 t k} {c : Ctx} (h : Core n0 t k c) (q : QMsg) (hq : q ∈ c.s.delayq) (hc : q.con = true)
+    (hs : c.s.state ≠ .none) (hf : c.s.freed = false) : Core n0 true q.sn c :=
+  ⟨h.infl, h.srt, h.lt, h.lgl, h.lgc, h.n1, h.nq, h.ng, h.nf, fun _ => Or.inl ⟨q, hq, rfl, hc, hs, hf⟩⟩
+
+theorem core_untrack {n0 t k} {c : Ctx} (h : Core n0 t k c) : Core n0 false k c :=
+  ⟨h.infl, h.srt, h.lt, h.lgl, h.lgc, h.n1, h.nq, h.ng, h.nf, fun ht => by simp at ht⟩
+
 end Coap.TlsGate
